@@ -29,7 +29,7 @@ fn hash_lines(h: &mut u64, lines: &[String]) {
 
 pub fn case_ids(o: &Opts) -> Vec<String> {
     let thorough = o.tier == "thorough";
-    let n1: u64 = o.cases.unwrap_or(if thorough { 30_000 } else { 2_500 });
+    let n1: u64 = o.cases.unwrap_or(if thorough { 40_000 } else { 8_000 });
     let n2: u64 = if thorough { 300_000 } else { 12_000 };
     let n3: u64 = if thorough { 100_000 } else { 6_000 };
     let mut v = vec![];
